@@ -26,12 +26,22 @@ type squeezeReader struct {
 	mask  byte
 	draws int
 	zeros int
+	// echo: about one draw in three repeats the previous draw's value (decided by another byte of the same seeded
+	// stream) — a legal output of a random source, and the one that makes two allocations in flight collide
+	echo   bool
+	last   byte
+	echoes int
 }
 
 func (s *squeezeReader) Read(b []byte) (int, error) {
 	n, err := s.inner.Read(b)
 	if len(b) == 4 && n == 4 {
 		v := b[3] & s.mask
+		if s.echo && s.draws > 0 && b[2]%3 == 0 {
+			v = s.last
+			s.echoes++
+		}
+		s.last = v
 		b[0], b[1], b[2], b[3] = 0, 0, 0, v
 		s.draws++
 		if v == 0 {
